@@ -15,6 +15,7 @@
   The key client is an oracle (a function of the server name).
 -/
 import VModel.ConcDns
+import VGen.Conc
 namespace V.Conc.Fetch
 
 abbrev Server := String
@@ -116,7 +117,8 @@ structure State where
   finished : List Server                    -- ghost: servers whose job is complete (merged or dropped)
   deriving DecidableEq, Repr
 
-def numWorkers (n : Nat) : Nat := if n < 64 then n else 64
+/-- `numWorkers := 64; if len(byServer) < numWorkers { numWorkers = len(byServer) }` — the literal is regenerated from the source -/
+def numWorkers (n : Nat) : Nat := if n < VGen.fetchMaxWorkers then n else VGen.fetchMaxWorkers
 
 def init (c : Cfg) (order : List Server) : State :=
   { results := (localRequests c).foldl (fun acc r => rput r (localVal c) acc) [],
